@@ -8,6 +8,7 @@ import (
 	"fmt"
 	"os"
 	"sort"
+	"strconv"
 	"time"
 
 	"github.com/sharedcode/sop"
@@ -79,15 +80,20 @@ func history(i int, seed int64, extra []string) any {
 	shapes := []string{"S3-leaf-insert", "S4-split", "S6-updates", "S7-removes", "S8-mixed", "S9-multistore", "S5-rootsplit", "S2-emptied-root"}
 	walkEach := os.Getenv("VERIF_HIST_WALK_EACH") != "" // development aid: walk the disk after every transaction
 	seenOrphans := 0
+	if v := os.Getenv("VERIF_HIST_MAXTXN"); v != "" { // development aid: stop the history early
+		if m, err := strconv.Atoi(v); err == nil && m < n {
+			n = m
+		}
+	}
 	for k := 0; k < n; k++ {
 		if walkEach && k > 0 {
 			w := walk.Walk(dir)
 			tot := 0
 			for _, sw := range w.By {
-				tot += len(sw.OrphanHandles) + len(sw.OrphanBlobs)
+				tot += len(sw.OrphanHandles) + len(sw.OrphanBlobs) + 1000*len(sw.Problems)
 			}
 			if tot != seenOrphans {
-				res.Log = append(res.Log, fmt.Sprintf("   >>> before txn %d: orphan handles+blobs went from %d to %d", k, seenOrphans, tot))
+				res.Log = append(res.Log, fmt.Sprintf("   >>> before txn %d: orphan handles+blobs (+1000 per walker problem) went from %d to %d", k, seenOrphans, tot))
 				seenOrphans = tot
 			}
 		}
